@@ -448,6 +448,44 @@ def run_fresh(ctx):
                 note("GCMKW iv", hdr.get("iv"), o, a)
             if alg in ("A128KW", "A256GCMKW", "RSA-OAEP") and o == "jwe.enc":
                 note("encrypted_key (fresh CEK)", tok.get("encrypted_key"), o, a)
+    # every byte position of a random output varies over the draws (a generator call that fills only part of its buffer,
+    # or a fixed tail, passes the whole-value distinctness above)
+    bykind = {}
+    for (kind, val) in seen:
+        if kind.startswith(("RSA", "encrypted_key")):
+            continue
+        try:
+            bykind.setdefault(kind, []).append(G.b64d(val))
+        except Exception:
+            pass
+    for kind, vals in bykind.items():
+        L = min(len(v) for v in vals)
+        if len(vals) >= 20:
+            stuck = [i for i in range(L) if len({v[i] for v in vals}) == 1]
+            if stuck:
+                ctx.pfails.append(("fresh:stuck-bytes", "%s: byte positions %s had the same value in all %d independent draws" % (kind, stuck[:12], len(vals)), "jwk.gen", {}, {}))
+            ctx.count("fresh:byte-positions-checked", L)
+    # several recipients in ONE call with ONE template: each recipient gets its own generated values
+    multi = []
+    tmpls = (None, {}, {"header": {"x-note": "shared"}})
+    for t in tmpls:
+        for keys in ([K.public(pool["EC-P256"]), K.public(pool["EC-P256-b"]), K.public(pool["EC-P256"])], [pool["oct-32"], pool["oct-32"]], ["pw one", "pw two"]):
+            alg = "ECDH-ES+A128KW" if isinstance(keys[0], dict) and keys[0].get("kty") == "EC" else "A256GCMKW" if isinstance(keys[0], dict) else "PBES2-HS256+A128KW"
+            a = {"jwe": {"protected": {"enc": "A128GCM"}, "unprotected": dict({"alg": alg}, **({"p2c": 1000} if alg.startswith("PBES2") else {}))}, "jwk": keys, "pt": "00"}
+            if t is not None:
+                a["rcp"] = t
+            multi += [("jwe.enc", a)] * 3
+    for (o, a), r in zip(multi, ctx.real(multi, chunk_min=4)):
+        ctx.evaluations += 1
+        if not r.get("ok") or not isinstance(r["jwe"].get("recipients"), list) or len(r["jwe"]["recipients"]) != len(a["jwk"]):
+            ctx.pfails.append(("fresh:setup", "one call for %d keys refused or malformed: %s" % (len(a["jwk"]), json.dumps(r)[:300]), o, a, r))
+            continue
+        for m in ("epk", "iv", "p2s", "tag"):
+            vals = [json.dumps((rc.get("header") or {}).get(m), sort_keys=True) for rc in r["jwe"]["recipients"] if (rc.get("header") or {}).get(m) is not None]
+            if len(set(vals)) != len(vals):
+                ctx.pfails.append(("fresh:per-recipient " + m, "two recipients of one JWE carry the same %s: %s" % (m, json.dumps(r["jwe"]["recipients"])[:400]), o, a, r))
+            for v in vals:
+                note("per-recipient " + m, v, o, a)
 
 
 def run(ctx):
